@@ -130,6 +130,14 @@ func kindErr(k string) error {
 	return nil
 }
 
+func (s *scripted) logLen() int {
+	if s.lock {
+		s.mu.Lock()
+		defer s.mu.Unlock()
+	}
+	return len(s.log)
+}
+
 func (s *scripted) unlockedPause() {
 	runtime.GC()
 	time.Sleep(2 * time.Millisecond)
@@ -205,6 +213,11 @@ func (s *scripted) Read(p []byte) (int, error) {
 	}
 	return n, err
 }
+
+// readerFunc adapts a function to io.Reader; values of func type cannot be compared.
+type readerFunc func([]byte) (int, error)
+
+func (f readerFunc) Read(p []byte) (int, error) { return f(p) }
 
 // sourcePanic is what a scripted source panics with: the caller's own fault, recognisable.
 type sourcePanic struct{}
@@ -441,6 +454,10 @@ func (st *state) exec(op *plan.Op, shared *scripted) (res plan.Res) {
 	if concMode && isNew && earlyrand.Wrapper != nil {
 		logMark = earlyrand.Wrapper.Len()
 	}
+	sharedMark := -1
+	if isNew && op.Shared && shared != nil {
+		sharedMark = shared.logLen()
+	}
 	c0 := cpuNS()
 	res.T0 = now()
 	func() {
@@ -600,6 +617,9 @@ func (st *state) exec(op *plan.Op, shared *scripted) (res plan.Res) {
 				installed = &io.LimitedReader{R: st.persist, N: 1 << 40}
 			case "iotest-onebyte":
 				installed = iotest.OneByteReader(st.persist)
+			case "func":
+				// a source whose dynamic type is a func type (not comparable)
+				installed = readerFunc(st.persist.Read)
 			}
 			st.persistPrev = bip39.VerifSwapRandSource(installed)
 			res.OutOK = true
@@ -670,6 +690,9 @@ func (st *state) exec(op *plan.Op, shared *scripted) (res plan.Res) {
 	if isNew && op.Shared && shared != nil {
 		// attribution happens in the parent through goroutine ids
 		res.Info = append(res.Info, "goid="+strconv.FormatInt(goid(), 10))
+		// the positions of the shared source's log between which this call ran: the events of
+		// this goroutine inside that window are this call's reads
+		res.Info = append(res.Info, "sharedlog="+strconv.Itoa(sharedMark)+":"+strconv.Itoa(shared.logLen()))
 	}
 	if isNew && src == nil && !op.Shared && earlyrand.Wrapper != nil && !concMode {
 		for _, e := range earlyrand.Wrapper.Drain() {
